@@ -31,10 +31,17 @@ CLAIMED = {
     "C03": ("theorems about tickF on an arbitrary sequence node (any children, any child tick): empty sequence, loop halts at "
             "first non-SUCCESS / completes, contiguous order, entry reset to INVALID, memory resume, full tick shape with "
             "status, children and trace, success-iff, tail interrupted without memory, memory-skipped prefix untouched; "
-            "liftable to every reachable state by run_good", P, BT),
+            "HISTORY level (Lemmas/Prefix.lean, C03b): in every state reachable by ticks / interrupts / pokes every RUNNING "
+            "sequence has only SUCCESS children before and only INVALID children after its remembered child "
+            "(C03_reachable_prefix), and one more tick of a RUNNING memory sequence enters none of the skipped children "
+            "nor anything below them and leaves them literally unchanged (C03_memory_skipped_not_reticked)", P, BT),
     "C04": ("theorems: empty selector, loop selects first RUNNING/SUCCESS, order, entry cases, tick shape, failure-iff, "
             "one-running for every selector of every reachable state (full strength), interrupt-on-change PARTIAL (K1: "
-            "fresh re-entry selecting the first child) with machine-checked counterexample C04_stale_counterexample", P,
+            "fresh re-entry selecting the first child) with machine-checked counterexample C04_stale_counterexample; "
+            "HISTORY level (C04b): in every reachable state the children before a RUNNING selector's remembered child are "
+            "FAILURE (no memory) / FAILURE or INVALID (memory) and no child after it contains a RUNNING node "
+            "(C04_reachable_prefix); a tick of a RUNNING memory selector enters none of the skipped higher priorities and "
+            "leaves them INVALID (C04_memory_skipped_not_reticked)", P,
             BT + "Known finding K1 (stale SUCCESS/FAILURE, never RUNNING, below the first child on fresh re-entry)."),
     "C05": ("theorems: policy validation at tick and setup, sweep relation (every child once in order, synchronised "
             "SUCCESSes skipped untouched), result table for the three policies, tick shape, clean-up on completion, entry "
